@@ -320,6 +320,16 @@ func cmdLoadCorrupt(args []string) {
 		}
 		code := genLoadWarrior(r, dialect, m, nn, &forms)
 		base := printLoadFile(code, r.Intn(nn), dialect, m, r, false)
+		if r.Intn(2) == 0 {
+			// metadata comments as a real load file carries them (before, between and after the instructions)
+			meta := []string{";redcode-94\n", ";name Test\n", ";author A. N. Other\n", ";strategy one\n;strategy\n", ";assert 1\n", ";strategy"}
+			ls := strings.SplitAfter(base, "\n")
+			pos := r.Intn(len(ls))
+			base = strings.Join(ls[:pos], "") + meta[r.Intn(len(meta)-1)] + strings.Join(ls[pos:], "")
+			if r.Intn(3) == 0 {
+				base += meta[r.Intn(len(meta))]
+			}
+		}
 		if k%8 == 0 {
 			// truncation at every byte offset of one canonical file
 			for c := 0; c <= len(base); c++ {
@@ -437,6 +447,12 @@ func listingEvent(code []ins, start, dialect, m int, via string) string {
 		}()
 		sim, _ := gmars.NewSimulator(cfg)
 		w, _ := sim.AddWarrior(&wd)
+		if (m+start)%3 == 0 {
+			// the listing of a simulator that has been used and reset
+			sim.SpawnWarrior(0, 0)
+			sim.RunCycle()
+			sim.Reset()
+		}
 		listing = w.LoadCode()
 	}()
 	// generic tokenization of the listing: lines -> fields split on blanks, commas and the '.' of OP.MOD
@@ -505,6 +521,11 @@ func cmdListing(args []string) {
 			}
 		}
 		via := []string{"loader", "assembler"}[r.Intn(2)]
+		if k%40 == 7 {
+			// an empty warrior (a source of comments only; an empty load file under '88 rules)
+			w.line(listingEvent(nil, 0, dialect, m, map[int]string{94: "assembler", 88: via}[dialect]))
+			w.nextUnit()
+		}
 		w.line(listingEvent(code, r.Intn(nn), dialect, m, via))
 		w.nextUnit()
 		cnt++
